@@ -274,7 +274,11 @@ func runScale(t *testing.T, id string) {
 		}
 		shape := "dense"
 		params := map[string]string{}
-		if kind := MustKind(kn); drawInt(rt, 0, 2, "comb") == 0 && combKey(kind, 0, 1) != nil {
+		combOdds := 2
+		if id == "C14" {
+			combOdds = 1 // the shape with the most pending siblings matters most to the traversals
+		}
+		if kind := MustKind(kn); drawInt(rt, 0, combOdds, "comb") == 0 && combKey(kind, 0, 1) != nil {
 			// comb: deep and wide at once
 			shape = "comb"
 			n = combLevels(kind) * 254
